@@ -371,6 +371,8 @@ func exprString(fset *gotoken.FileSet, e goast.Expr) string {
 		return exprString(fset, x.X) + "[" + exprString(fset, x.Index) + "]"
 	case *goast.InterfaceType:
 		return "interface{}"
+	case *goast.MapType:
+		return "map[" + exprString(fset, x.Key) + "]" + exprString(fset, x.Value)
 	}
 	fmt.Fprintf(&sb, "%T", e)
 	return sb.String()
